@@ -99,8 +99,8 @@ def run(ck, prog):
     ck.count("(size, residue) cells", cells)
     ck.floor("(size, residue) cells", cells, 240)
     ck.sample({"size": 6, "map": reduction(prog, size=6)[1]})
-    _size_guard(ck, prog, f, construct)
-    _user(ck, prog, f, construct)
+    ck.attempt(_size_guard, ck, prog, f, construct)
+    ck.attempt(_user, ck, prog, f, construct)
     bind.check_wrapper(ck, prog, "BIND-api", SP, "SequenceParameters.get_reduced_alphabet_sequence",
                        SEQ + ":Sequence.get_reducedAlphabetSequence")
     g = prog.fn(SEQ, "Sequence.get_reducedAlphabetSequence")
